@@ -37,9 +37,10 @@ Definition copy32 (src : sbytes) : sbytes :=
   firstn 32 src ++ repeat (B 0) (32 - length (firstn 32 src)).
 
 (* msgNonce := h[:24]; xorHash := h[24:]; msgNonce[i] ^= xorHash[(i+2) % len(xorHash)]
-   (h has 32 bytes, so len(xorHash) = 8 and the modulus is never zero) *)
-Definition nonce_mix (h : sbytes) : sbytes :=
-  map (fun i => xor_sym (nth i h (B 0)) (nth (24 + (i + 2) mod 8) h (B 0))) (seq 0 24).
+   (h has 32 bytes, so len(xorHash) = 8 and the modulus is never zero).  The
+   byte-wise xor of parts of one hash is modelled as a free 24-byte function
+   of that hash. *)
+Definition nonce_mix (h : sbytes) : sbytes := fapp FN_XOR 24 [h].
 
 Definition msg_seed (ctx msg tpub : sbytes) : sbytes := kdf (lift enc_label_seed ++ ctx) (msg ++ tpub).
 Definition msg_nonce (ctx mpub : sbytes) : sbytes := nonce_mix (kdf (lift enc_label_nonce ++ ctx) mpub).
